@@ -160,3 +160,24 @@ fn c10_parse_three_files_template() {
     assert!(matches!(&m.0[2], Part::File { file, .. } if eqb(file.filename.as_bytes(), b"2") && eqb(file.content, b"B")), "multipart: second file third");
     assert!(matches!(&m.0[3], Part::File { file, .. } if eqb(file.filename.as_bytes(), b"3") && eqb(file.content, b"C")), "multipart: third file last");
 }
+
+/// the parser on ENUMERATED CONCRETE bodies: a file part with content X followed by a text field: X byte-exact (content ending in CR, being CR / CRLF only,
+/// containing CRLF or dashes), and the following part still found
+fn parse_concrete_body(k: usize) {
+    const CONTENTS: [&[u8]; 10] = [b"", b"a", b"a\r", b"\r", b"\r\n", b"a\r\nb", b"--", b"a--b", b"\n", b"\r\r"];
+    let x = CONTENTS[k];
+    let buf: &'static mut [u8; 256] = Box::leak(Box::new([0u8; 256]));
+    let mut n = 0;
+    let put = |buf: &mut [u8; 256], at: &mut usize, s: &[u8]| { let mut i = 0; while i < s.len() { buf[*at] = s[i]; *at += 1; i += 1; } };
+    put(buf, &mut n, b"--b\r\nContent-Disposition: form-data; name=\"f\"; filename=\"g\"\r\nContent-Type: a/b\r\n\r\n"); put(buf, &mut n, x);
+    put(buf, &mut n, b"\r\n--b\r\nContent-Disposition: form-data; name=\"t\"\r\n\r\nv\r\n--b--\r\n");
+    let r = Multipart::parse(&buf[..n]);
+    assert!(r.is_ok(), "multipart: a conforming two-part body parses");
+    let m = r.unwrap();
+    assert!(m.0.len() == 2, "multipart: both parts are found (no part swallowed by the previous one's content)");
+    assert!(matches!(&m.0[0], Part::File { name, file } if eqb(name.as_bytes(), b"f") && eqb(file.filename.as_bytes(), b"g") && eqb(file.mimetype.as_bytes(), b"a/b") && eqb(file.content, x)),
+        "multipart: the file content is byte-exact (CR, LF, dashes at the end included)");
+    assert!(matches!(&m.0[1], Part::Text { name, text } if eqb(name.as_bytes(), b"t") && eqb(text.as_bytes(), b"v")), "multipart: the following text field is intact");
+    std::mem::forget(m);
+}
+//@chunks 10 c10_parse_concrete parse_concrete_body #[kani::proof] #[kani::unwind(260)] #[kani::stub(std::str::from_utf8, stub_from_utf8)] #[kani::stub(core::fmt::write, stub_fmt_write)]
